@@ -313,12 +313,15 @@ func c11G(rng *rand.Rand, ws bool) string {
 		return s
 	}
 	a, b := mk(), mk()
-	if a == b {
-		return ""
+	if rng.Intn(12) == 0 {
+		b = a // a mode-only change or an exact rename reported as a modification: identical blobs
 	}
 	fd := &items.FileDiff{CleanupDisabled: rng.Intn(2) == 0, WhitespaceIgnore: ws}
 	fd.Initialize(nil2())
 	h1, h2 := plumbing.NewHash("11"), plumbing.NewHash("22")
+	if a == b {
+		h2 = h1 // identical contents have one hash
+	}
 	b1 := &items.CachedBlob{Data: []byte(a)}
 	b2 := &items.CachedBlob{Data: []byte(b)}
 	cache := map[plumbing.Hash]*items.CachedBlob{h1: b1, h2: b2}
@@ -327,7 +330,10 @@ func c11G(rng *rand.Rand, ws bool) string {
 	if err != nil {
 		return err.Error()
 	}
-	d := res[items.DependencyFileDiff].(map[string]items.FileDiffData)["f"]
+	d, present := res[items.DependencyFileDiff].(map[string]items.FileDiffData)["f"]
+	if !present {
+		return fmt.Sprintf("no diff at all is reported for the modification %q -> %q", a, b)
+	}
 	l1, _ := b1.CountLines()
 	l2, _ := b2.CountLines()
 	if d.OldLinesOfCode != l1 || d.NewLinesOfCode != l2 {
